@@ -86,8 +86,11 @@ type FW struct {
 	ToggleOn []int // chains whose receive switch may be flipped
 	Syncs    int   // bare sync(chain) steps a history may contain (deviation budget)
 	Prims    bool  // primitive recv / ack / timeout (latest consensus height, no sync) for every packet ever sent, always enabled
+	Stale    bool  // primitives may also be proven at the second-newest consensus height of the client
 	Micro    bool  // primitive commit / update instead of the macro relays
 	Commits  int   // micro: commits per chain
+	CommitOn []int // micro: chains that may commit (nil = all)
+	Burst    bool  // all transfers are submitted before anything else happens
 	StepOf   []time.Duration
 	Prefix   []ksim.Op
 
@@ -293,11 +296,12 @@ type ext struct {
 	Xfers   []xfer
 	Toggled int
 	Synced  int
+	Started bool // an operation other than xfer happened
 	Commits []int
 }
 
 func (e *ext) Clone() ksim.Ext {
-	n := &ext{Toggled: e.Toggled, Synced: e.Synced}
+	n := &ext{Toggled: e.Toggled, Synced: e.Synced, Started: e.Started}
 	n.Pkts = append([]pkt{}, e.Pkts...)
 	n.Xfers = append([]xfer{}, e.Xfers...)
 	n.Commits = append([]int{}, e.Commits...)
@@ -323,6 +327,9 @@ func (e *ext) KeyBytes() []byte {
 		out = append(out, byte(x.Kind), byte(x.Route), byte(x.Variant), byte(x.Amt))
 	}
 	out = append(out, 0xff, byte(e.Toggled), byte(e.Synced))
+	if e.Started {
+		out = append(out, 1)
+	}
 	for _, c := range e.Commits {
 		out = append(out, byte(c))
 	}
@@ -457,6 +464,24 @@ func (s *FW) deliver(v map[string]*big.Int, x xfer) {
 	} else {
 		addTo(v, fmt.Sprintf("bal|%d|blocked(distribution)|%s", last, dn(last)), x.Amt)
 	}
+}
+
+func sortedKeys(m map[string]*big.Int) []string {
+	out := make([]string, 0, len(m))
+	for k := range m {
+		out = append(out, k)
+	}
+	sort.Strings(out)
+	return out
+}
+
+func contains(l []int, x int) bool {
+	for _, y := range l {
+		if y == x {
+			return true
+		}
+	}
+	return false
 }
 
 func abs(x int) int {
@@ -613,7 +638,7 @@ func (s *FW) Init(wk *ksim.Worker) *ksim.World {
 	}
 	e := ex(w)
 	e.Commits = make([]int, s.N)
-	e.Toggled, e.Synced = 0, 0
+	e.Toggled, e.Synced, e.Started = 0, 0, false
 	return w
 }
 
@@ -737,7 +762,7 @@ func (s *FW) productive(w *ksim.World) []ksim.Op {
 func (s *FW) Ops(w *ksim.World) []ksim.Op {
 	e := ex(w)
 	var ops []ksim.Op
-	if len(e.Xfers) < s.MaxXfers {
+	if len(e.Xfers) < s.MaxXfers && !(s.Burst && e.Started) {
 		for _, k := range s.Kinds {
 			for ri := range s.Routes {
 				for vi := range s.Variants {
@@ -761,7 +786,7 @@ func (s *FW) Ops(w *ksim.World) []ksim.Op {
 	}
 	if s.Micro {
 		for c := 0; c < s.N; c++ {
-			if e.Commits[c] < s.Commits {
+			if e.Commits[c] < s.Commits && (s.CommitOn == nil || contains(s.CommitOn, c)) {
 				ops = append(ops, ksim.Op{K: "commit", A: []int{c}})
 			}
 		}
@@ -779,6 +804,9 @@ func (s *FW) Ops(w *ksim.World) []ksim.Op {
 	if s.Prims || s.Micro {
 		for i := range e.Pkts {
 			ops = append(ops, ksim.Op{K: "recvP", A: []int{i}}, ksim.Op{K: "ackP", A: []int{i}}, ksim.Op{K: "timeoutP", A: []int{i}})
+			if s.Stale { // the same messages proven at the second-newest consensus height the client stores
+				ops = append(ops, ksim.Op{K: "recvP", A: []int{i, 1}}, ksim.Op{K: "ackP", A: []int{i, 1}}, ksim.Op{K: "timeoutP", A: []int{i, 1}})
+			}
 		}
 	}
 	return ops
@@ -817,6 +845,9 @@ func (s *FW) memoFor(r route, v variant) string {
 
 func (s *FW) Apply(w *ksim.World, op ksim.Op) ksim.Result {
 	r := s.apply(w, op)
+	if op.K != "xfer" {
+		ex(w).Started = true
+	}
 	switch op.K {
 	case "relay", "ack", "expire":
 		if r.Class == ksim.ERR || r.Class == ksim.PANIC {
@@ -849,13 +880,13 @@ func (s *FW) apply(w *ksim.World, op ksim.Op) ksim.Result {
 		if r := s.syncClient(w, p.Dst, p.Src, s.stepOf(p.Src)); r.Class != ksim.OK {
 			return r
 		}
-		return s.recv(w, op.A[0])
+		return s.recv(w, op.A[0], false)
 	case "ack":
 		p := e.Pkts[op.A[0]]
 		if r := s.syncClient(w, p.Src, p.Dst, s.stepOf(p.Dst)); r.Class != ksim.OK {
 			return r
 		}
-		return s.ack(w, op.A[0])
+		return s.ack(w, op.A[0], false)
 	case "expire":
 		p := e.Pkts[op.A[0]]
 		dt := time.Duration(int64(p.P.TimeoutTimestamp) - w.CS[p.Dst].TimeNs())
@@ -865,13 +896,13 @@ func (s *FW) apply(w *ksim.World, op ksim.Op) ksim.Result {
 		if r := s.syncClient(w, p.Src, p.Dst, dt); r.Class != ksim.OK {
 			return r
 		}
-		return s.timeout(w, op.A[0])
+		return s.timeout(w, op.A[0], false)
 	case "recvP":
-		return s.recv(w, op.A[0])
+		return s.recv(w, op.A[0], len(op.A) > 1)
 	case "ackP":
-		return s.ack(w, op.A[0])
+		return s.ack(w, op.A[0], len(op.A) > 1)
 	case "timeoutP":
-		return s.timeout(w, op.A[0])
+		return s.timeout(w, op.A[0], len(op.A) > 1)
 	case "rx":
 		c := op.A[0]
 		e.Toggled++
@@ -902,31 +933,59 @@ func (s *FW) apply(w *ksim.World, op ksim.Op) ksim.Result {
 	panic("c43: unknown op " + op.K)
 }
 
-func (s *FW) recv(w *ksim.World, i int) ksim.Result {
+// proofHeight is the consensus height a relay to chain `on` about chain `of` is proven at: the
+// client's latest height, or (stale) the second-newest height it stores.
+func (s *FW) proofHeight(w *ksim.World, on, of int, stale bool) (clienttypes.Height, bool) {
+	cid := s.clientOn(on, of)
+	if !stale {
+		return w.ClientLatest(on, cid), true
+	}
+	hs := w.ConsensusHeights(on, cid)
+	if len(hs) < 2 {
+		return clienttypes.Height{}, false
+	}
+	return hs[len(hs)-2], true
+}
+
+var noStale = ksim.Result{Class: ksim.ERR, Code: "harness/no-older-consensus-state"}
+
+func (s *FW) recv(w *ksim.World, i int, stale bool) ksim.Result {
 	p := ex(w).Pkts[i]
-	r := w.RecvV1(p.Dst, p.Src, p.P, w.ClientLatest(p.Dst, s.clientOn(p.Dst, p.Src)))
+	ph, ok := s.proofHeight(w, p.Dst, p.Src, stale)
+	if !ok {
+		return noStale
+	}
+	r := w.RecvV1(p.Dst, p.Src, p.P, ph)
 	if r.Class == ksim.OK {
 		s.observe(w, p.Dst, r.Events)
 	}
 	return r
 }
 
-func (s *FW) ack(w *ksim.World, i int) ksim.Result {
+func (s *FW) ack(w *ksim.World, i int, stale bool) ksim.Result {
 	p := ex(w).Pkts[i]
+	ph, ok := s.proofHeight(w, p.Src, p.Dst, stale)
+	if !ok {
+		return noStale
+	}
 	ack := p.Ack
 	if ack == nil {
 		ack = channeltypes.NewResultAcknowledgement([]byte{1}).Acknowledgement() // premature: nothing was written yet
 	}
-	r := w.AckV1(p.Src, p.Dst, p.P, ack, w.ClientLatest(p.Src, s.clientOn(p.Src, p.Dst)))
+	r := w.AckV1(p.Src, p.Dst, p.P, ack, ph)
 	if r.Class == ksim.OK {
 		s.observe(w, p.Src, r.Events)
 	}
 	return r
 }
 
-func (s *FW) timeout(w *ksim.World, i int) ksim.Result {
+func (s *FW) timeout(w *ksim.World, i int, stale bool) ksim.Result {
 	p := ex(w).Pkts[i]
-	r := w.TimeoutV1(p.Src, p.Dst, p.P, channeltypes.UNORDERED, w.ClientLatest(p.Src, s.clientOn(p.Src, p.Dst)))
+	ph, ok := s.proofHeight(w, p.Src, p.Dst, stale)
+	if !ok {
+		return noStale
+	}
+	r := w.TimeoutV1(p.Src, p.Dst, p.P, channeltypes.UNORDERED, ph)
 	if r.Class == ksim.OK {
 		s.observe(w, p.Src, r.Events)
 	}
@@ -1074,15 +1133,15 @@ func (s *FW) Invariant(w *ksim.World) *ksim.Fail {
 					open = append(open, fmt.Sprintf("%d->%d #%d", p.Src, p.Dst, p.P.Sequence))
 				}
 			}
-			return &ksim.Fail{Key: "stuck-transfer", Text: fmt.Sprintf("packets %v are still committed (or forward records remain) but no receive, acknowledgement or timeout can make progress: the transfer can reach neither outcome", open)}
+			return &ksim.Fail{Key: "stuck-transfer/" + s.routesOf(e), Text: fmt.Sprintf("packets %v are still committed (or forward records remain) but no receive, acknowledgement or timeout can make progress: the transfer can reach neither outcome", open)}
 		}
 		return nil
 	}
 	got := s.vector(w)
 	// intermediate accounts hold nothing
-	for k, v := range got {
+	for _, k := range sortedKeys(got) {
 		if strings.HasPrefix(k, "bal|") && isIntermediate(strings.Split(k, "|")[2]) {
-			return &ksim.Fail{Key: "intermediate-account-keeps-funds", Text: fmt.Sprintf("quiescent state: %s = %s", k, v)}
+			return &ksim.Fail{Key: "intermediate-account-keeps-funds/" + s.routesOf(e), Text: fmt.Sprintf("quiescent state: %s = %s", k, got[k])}
 		}
 	}
 	// all-or-nothing: some assignment of {refunded, delivered} to the transfers explains every user balance
@@ -1247,6 +1306,45 @@ func (s *FW) Step(pre *ksim.World, op ksim.Op, r ksim.Result, post *ksim.World) 
 
 // ---- parts ----------------------------------------------------------------------------------------
 
+// describe renders the alphabet and bounds of a part for the evidence.
+func (s *FW) describe() string {
+	var rs, vs, ks []string
+	for _, r := range s.Routes {
+		rs = append(rs, r.Name)
+	}
+	for _, v := range s.Variants {
+		vs = append(vs, "("+v.String()+")")
+	}
+	for _, k := range s.Kinds {
+		ks = append(ks, native(k))
+	}
+	d := fmt.Sprintf("%d chains; <=%d transfers of tokens %v on routes %v with variants %v", s.N, s.MaxXfers, ks, rs, vs)
+	if s.Burst {
+		d += " submitted back to back before any relay"
+	}
+	if s.Micro {
+		d += fmt.Sprintf("; primitive commit (<=%d per chain, chains %v) / update of any client / recvP / ackP / timeoutP only", s.Commits, s.CommitOn)
+	} else {
+		d += "; macro relay/ack/expire whenever productive"
+	}
+	if s.Toggles > 0 {
+		d += fmt.Sprintf("; <=%d receive-switch flips on chains %v", s.Toggles, s.ToggleOn)
+	}
+	if s.Syncs > 0 {
+		d += fmt.Sprintf("; <=%d bare syncs of any chain", s.Syncs)
+	}
+	if s.Prims && !s.Micro {
+		d += "; primitive recvP/ackP/timeoutP of every packet always enabled"
+	}
+	if s.Stale {
+		d += "; primitives also with the second-newest consensus height"
+	}
+	if len(s.Prefix) > 0 {
+		d += fmt.Sprintf("; after the honest prefix %v", s.Prefix)
+	}
+	return d
+}
+
 func line(n int) route {
 	r := route{Name: "line" + strconv.Itoa(n)}
 	for c := 0; c < n; c++ {
@@ -1271,28 +1369,30 @@ func run(c *core.C) {
 	allRetries := []variant{{Rcv: rcvUser, Retries: -1}, {Rcv: rcvUser, Retries: 0, TmoS: 30}, {Rcv: rcvUser, Retries: 1, TmoS: 30}, {Rcv: rcvUser, Retries: 2, TmoS: 30},
 		{Rcv: rcvBlocked, Retries: 0, TmoS: 30}, {Rcv: rcvBlocked, Retries: 1, TmoS: 30}}
 	few := []variant{{Rcv: rcvUser, Retries: 0, TmoS: 30}, {Rcv: rcvUser, Retries: 1, TmoS: 30}}
+	p1 := []variant{{Retries: 0, TmoS: 30, P1Tmo: 600}, {Retries: 1, TmoS: 30, P1Tmo: 600}}
+	abc := []int{0, 1, 2}
+	ackPrefix := []ksim.Op{{K: "xfer", A: []int{1, 0, 0}}, {K: "relay", A: []int{0}}, {K: "relay", A: []int{1}}}
+	racePrefix := ackPrefix[:2]
+	cStep := []time.Duration{0, 0, 12 * time.Second}
 	if c.Quick() {
-		add("outcomes", &FW{N: 3, Kinds: []int{0, 1, 2}, Routes: []route{routeABC}, Variants: allRetries, MaxXfers: 1, Toggles: 1, ToggleOn: []int{1, 2}}, 12, 0.3)
-		add("first-hop-timeout", &FW{N: 3, Kinds: []int{0, 1, 2}, Routes: []route{routeABC}, Variants: []variant{{Retries: 0, TmoS: 30, P1Tmo: 600}}, MaxXfers: 1, Toggles: 1, ToggleOn: []int{1}}, 10, 0.2)
-		add("bounce", &FW{N: 3, Kinds: []int{0, 1, 2}, Routes: []route{routeABA}, Variants: allRetries, MaxXfers: 1, Toggles: 1, ToggleOn: []int{0, 1}}, 12, 0.3)
-		add("deviations", &FW{N: 3, Kinds: []int{0, 1, 2}, Routes: []route{routeABC}, Variants: few, MaxXfers: 1, Syncs: 1, Prims: true}, 12, 0.4)
-		add("two-transfers", &FW{N: 3, Kinds: []int{0, 1, 2}, Routes: []route{routeABC}, Variants: few[:1], MaxXfers: 2}, 12, 0.6)
-		add("micro-ack-path", &FW{N: 3, Kinds: []int{1}, Routes: []route{routeABC}, Variants: few[:1], MaxXfers: 1, Micro: true, Commits: 2,
-			Prefix: []ksim.Op{{K: "xfer", A: []int{1, 0, 0}}, {K: "relay", A: []int{0}}, {K: "relay", A: []int{1}}}}, 7, 0.5)
-		add("micro-timeout-race", &FW{N: 3, Kinds: []int{1}, Routes: []route{routeABC}, Variants: []variant{{Retries: 0, TmoS: 15}}, MaxXfers: 1, Micro: true, Commits: 2,
-			StepOf: []time.Duration{0, 0, 20 * time.Second},
-			Prefix: []ksim.Op{{K: "xfer", A: []int{1, 0, 0}}, {K: "relay", A: []int{0}}}}, 7, 0)
+		add("outcomes", &FW{N: 3, Kinds: abc, Routes: []route{routeABC}, Variants: allRetries, MaxXfers: 1, Toggles: 2, ToggleOn: []int{1, 2}, Prims: true}, 14, 0.3)
+		add("first-hop-timeout", &FW{N: 3, Kinds: abc, Routes: []route{routeABC}, Variants: p1[:1], MaxXfers: 1, Toggles: 1, ToggleOn: []int{1, 2}, Prims: true}, 12, 0.1)
+		add("bounce", &FW{N: 3, Kinds: abc, Routes: []route{routeABA}, Variants: allRetries, MaxXfers: 1, Toggles: 1, ToggleOn: []int{0, 1}}, 12, 0.15)
+		add("deviations", &FW{N: 3, Kinds: abc, Routes: []route{routeABC}, Variants: few, MaxXfers: 1, Syncs: 1, Prims: true}, 12, 0.3)
+		add("two-transfers", &FW{N: 3, Kinds: abc, Routes: []route{routeABC}, Variants: few[:1], MaxXfers: 2, Burst: true}, 14, 0.5)
+		add("micro-ack-path", &FW{N: 3, Kinds: []int{1}, Routes: []route{routeABC}, Variants: few[:1], MaxXfers: 1, Micro: true, Commits: 2, CommitOn: []int{1, 2}, Prefix: ackPrefix}, 7, 0.5)
+		add("micro-timeout-race", &FW{N: 3, Kinds: []int{1}, Routes: []route{routeABC}, Variants: []variant{{Retries: 0, TmoS: 11}}, MaxXfers: 1, Micro: true, Stale: true, Commits: 2, CommitOn: []int{1, 2}, StepOf: cStep, Prefix: racePrefix}, 7, 0)
 	} else {
-		add("outcomes", &FW{N: 3, Kinds: []int{0, 1, 2}, Routes: []route{routeABC}, Variants: allRetries, MaxXfers: 1, Toggles: 2, ToggleOn: []int{1, 2}, Prims: true}, 14, 0.15)
-		add("first-hop-timeout", &FW{N: 3, Kinds: []int{0, 1, 2}, Routes: []route{routeABC}, Variants: []variant{{Retries: 0, TmoS: 30, P1Tmo: 600}, {Retries: 1, TmoS: 30, P1Tmo: 600}}, MaxXfers: 1, Toggles: 1, ToggleOn: []int{1, 2}, Prims: true}, 12, 0.1)
-		add("deviations", &FW{N: 3, Kinds: []int{0, 1, 2}, Routes: []route{routeABC}, Variants: few, MaxXfers: 1, Syncs: 2, Prims: true, Toggles: 1, ToggleOn: []int{2}}, 14, 0.25)
-		add("two-transfers", &FW{N: 3, Kinds: []int{0, 1, 2}, Routes: []route{routeABC}, Variants: few, MaxXfers: 2, Toggles: 1, ToggleOn: []int{2}}, 16, 0.3)
-		add("four-chains", &FW{N: 4, Kinds: []int{0, 1, 2, 3}, Routes: []route{routeABCD}, Variants: allRetries[1:], MaxXfers: 1, Toggles: 1, ToggleOn: []int{1, 2, 3}}, 16, 0.4)
-		add("micro-ack-path", &FW{N: 3, Kinds: []int{1}, Routes: []route{routeABC}, Variants: few[:1], MaxXfers: 1, Micro: true, Commits: 3,
-			Prefix: []ksim.Op{{K: "xfer", A: []int{1, 0, 0}}, {K: "relay", A: []int{0}}, {K: "relay", A: []int{1}}}}, 9, 0.5)
-		add("micro-timeout-race", &FW{N: 3, Kinds: []int{1}, Routes: []route{routeABC}, Variants: []variant{{Retries: 1, TmoS: 15}}, MaxXfers: 1, Micro: true, Commits: 3,
-			StepOf: []time.Duration{0, 0, 20 * time.Second},
-			Prefix: []ksim.Op{{K: "xfer", A: []int{1, 0, 0}}, {K: "relay", A: []int{0}}}}, 9, 0)
+		add("outcomes", &FW{N: 3, Kinds: abc, Routes: []route{routeABC}, Variants: allRetries, MaxXfers: 1, Toggles: 3, ToggleOn: []int{1, 2}, Prims: true, Stale: true}, 16, 0.1)
+		add("first-hop-timeout", &FW{N: 3, Kinds: abc, Routes: []route{routeABC}, Variants: p1, MaxXfers: 1, Toggles: 2, ToggleOn: []int{1, 2}, Prims: true}, 14, 0.1)
+		add("bounce", &FW{N: 3, Kinds: abc, Routes: []route{routeABA, routeABCB}, Variants: allRetries, MaxXfers: 1, Toggles: 2, ToggleOn: []int{0, 1, 2}, Prims: true}, 16, 0.15)
+		add("deviations", &FW{N: 3, Kinds: abc, Routes: []route{routeABC}, Variants: few, MaxXfers: 1, Syncs: 2, Prims: true, Stale: true, Toggles: 1, ToggleOn: []int{2}}, 16, 0.2)
+		add("two-transfers", &FW{N: 3, Kinds: abc, Routes: []route{routeABC}, Variants: few, MaxXfers: 2}, 18, 0.3)
+		add("two-transfers-faults", &FW{N: 3, Kinds: abc, Routes: []route{routeABC}, Variants: few[:1], MaxXfers: 2, Toggles: 1, ToggleOn: []int{1, 2}}, 16, 0.3)
+		add("two-transfers-prims", &FW{N: 3, Kinds: abc, Routes: []route{routeABC}, Variants: few[:1], MaxXfers: 2, Burst: true, Prims: true}, 16, 0.3)
+		add("four-chains", &FW{N: 4, Kinds: []int{0, 1, 2, 3}, Routes: []route{routeABCD}, Variants: allRetries, MaxXfers: 1, Toggles: 2, ToggleOn: []int{1, 2, 3}, Prims: true}, 20, 0.5)
+		add("micro-ack-path", &FW{N: 3, Kinds: []int{1}, Routes: []route{routeABC}, Variants: few[:1], MaxXfers: 1, Micro: true, Stale: true, Commits: 3, Prefix: ackPrefix}, 9, 0.5)
+		add("micro-timeout-race", &FW{N: 3, Kinds: []int{1}, Routes: []route{routeABC}, Variants: []variant{{Retries: 1, TmoS: 11}}, MaxXfers: 1, Micro: true, Stale: true, Commits: 3, StepOf: cStep, Prefix: racePrefix}, 10, 0)
 	}
 	if only := os.Getenv("C43_ONLY"); only != "" && c.Replay == "" { // development aid: run a subset of the parts
 		var sel []ksim.Part
@@ -1309,6 +1409,17 @@ func run(c *core.C) {
 		{{K: "xfer", A: []int{2, 0, 2}}, {K: "relay", A: []int{0}}, {K: "expire", A: []int{1}}, {K: "rx", A: []int{2}}, {K: "relay", A: []int{2}}, {K: "ack", A: []int{2}}, {K: "ack", A: []int{0}}},
 	})
 	c.Set("alphabet", "xfer(token native to A | B (unwinding at B) | C (double unwind), route, receiver in {user, blocked module account}, forward retries in {absent,0,1,2}, forward timeout in {absent (10 min), 30 s}) = real MsgTransfer A->B with a forward memo | relay(p) = commit source + honest client update + MsgRecvPacket | ack(p) = commit destination + update + MsgAcknowledgement | expire(p) = destination clock passes the packet timeout + update + MsgTimeout (macro ops offered whenever they can make progress, for every packet discovered from send_packet events incl. forwarded and retried packets) | rx(chain) = transfer MsgUpdateParams by the authority flipping receive_enabled | sync(chain) = bare commit + client updates (deviation budget) | recvP / ackP / timeoutP = primitive relay messages at the client's latest height for every packet ever sent, always enabled (duplicates, premature and late relays) | commit / update (micro parts only)")
-	c.Set("bounds", "quick: 1 transfer (2 in part two-transfers), <=1 receive-switch flip, <=1 bare sync; thorough: <=2 flips, <=2 bare syncs, 2 concurrent transfers with all variants, 4-chain line; every part's state space is finite and is explored until the frontier is empty or the depth bound is reached (see parts)")
+	bounds := map[string]string{}
+	for _, p := range parts {
+		bounds[p.Name] = p.Sc.(*FW).describe()
+	}
+	c.Set("part_bounds", bounds)
+	c.Set("bounds", "every part enumerates ALL histories over its alphabet (see part_bounds) by breadth-first search with state de-duplication until the frontier is empty (state_space_closed) or the depth bound is reached; "+
+		"macro relays (relay/ack/expire) are offered exactly when they can make progress, primitive relays (recvP/ackP/timeoutP: duplicates, premature, late and - where stated - stale-proof relays) are always enabled and unbounded, "+
+		"bare syncs (the deviation that lets primitives succeed out of the honest order) and receive-switch flips are bounded per history; quick: <=1 bare sync, <=2 flips, 1 transfer (2 submitted back to back in two-transfers); "+
+		"thorough: <=2 bare syncs, <=3 flips, 2 transfers at any time, the routes A-B-C-B and A-B-C-D")
+	c.Set("oracles", "all states: per token and link, escrow on the home side == voucher supply on the far side + amounts in transit (commitment present and (no receipt or error ack stored)), native supply constant (big.Int ledger fed from packet data and the core stores); "+
+		"no non-quiescent state without an enabled progress step; every honest macro relay accepted; every receive carrying a forward instruction on a chain with receiving enabled sends exactly one packet in the denomination ICS-20 credited there (reference rule), with the instructed channel/receiver/amount, touching no other denomination, and with receiving disabled changes no bank state; "+
+		"quiescent states (no commitment of any tracked packet, no in-flight forward record on any chain): intermediate accounts empty; some assignment delivered/refunded per transfer explains all user balances; all escrow balances, voucher supplies and tracked total escrow equal initial snapshot + reference effects of the delivered transfers")
 	c.Assume("counterparty consensus, storage commit and validator signing are played by the harness; one message per transaction; sending is never disabled on an intermediate chain (a retry that cannot be sent makes MsgTimeout fail, which is a liveness matter outside the statement)")
 }
